@@ -45,7 +45,9 @@ PROPERTIES = {
         "runs": {
             "quick": [H("HarnessC02a", b(N=3, K1=1, CACHE=1, PERSISTFIRST=1, HREQ=-1, TMASK=7)), H("HarnessC02a", b(N=3, K1=1, CACHE=1, PERSISTFIRST=1, FRESHCACHE=1, HREQ=-1, TMASK=12)),
                       # two writers through one shared interior node: height-1 base, two trees re-loaded through the cache, inserts only
-                      H("HarnessC02a", b(N=3, K1=2, CACHE=1, PERSISTFIRST=1, HREQ=1, TMASK=12, INSERTONLY=1, LPAT=3), sample_every=500)],
+                      H("HarnessC02a", b(N=3, K1=2, CACHE=1, PERSISTFIRST=1, HREQ=1, TMASK=12, INSERTONLY=1, LPAT=3), sample_every=500),
+                      # a base that was never persisted (all nodes in memory and dirty at the first clone): the original and the clone of the clone are modified
+                      H("HarnessC02a", b(N=3, K1=1, CACHE=0, PERSISTFIRST=0, HREQ=-1, TMASK=3), sample_every=100)],
             "thorough": [H("HarnessC02a", b(N=3, K1=1, CACHE=c, PERSISTFIRST=p, HREQ=-1, TMASK=15), sample_every=500) for c in (0, 1, 2) for p in (0, 1)] +
                         [H("HarnessC02a", b(N=2, K1=2, CACHE=1, PERSISTFIRST=1, HREQ=-1, TMASK=15), sample_every=2000)],
         },
@@ -56,8 +58,10 @@ PROPERTIES = {
     },
     "C04": {
         "runs": {
-            "quick": [H("HarnessC04a", b(K=4, NOPS=3), sample_every=200), H("HarnessC04a", b(K=3, NOPS=3, BF=3))] + [H("HarnessC04b", b(N=5, K=1, NOPS=2, HREQ=2, LPAT=p)) for p in (18, 6, 19, 63)] + [H("HarnessC04a", {**b(K=k, NOPS=3), "SEQ.h": q}, sample_every=200) for k, q in ((5, 10),)] + [H("HarnessC04b", {**b(N=5, K=2, NOPS=3, HREQ=2, LPAT=p), "SEQ.h": q}, sample_every=20) for p in (18, 6, 19, 63) for q in (20, 21)] + [H("HarnessC04b", b(N=17, K=1, NOPS=2, Lmax=4, LRULER=1, CONCRETEKEYS=1), sample_every=10, max_steps=30000000)],
-            "thorough": [H("HarnessC04b", b(N=5, K=1, NOPS=2, HREQ=2), sample_every=500), H("HarnessC04a", b(K=4, NOPS=3), sample_every=200), H("HarnessC04a", b(K=3, NOPS=4)), H("HarnessC04a", b(K=3, NOPS=3, BF=3))],
+            "quick": [H("HarnessC04a", b(K=4, NOPS=3), sample_every=200), H("HarnessC04a", b(K=3, NOPS=3, BF=3))] + [H("HarnessC04b", b(N=5, K=1, NOPS=2, HREQ=2, LPAT=p)) for p in (18, 6, 19, 63)] + [H("HarnessC04a", {**b(K=k, NOPS=3), "SEQ.h": q}, sample_every=200) for k, q in ((5, 10),)] + [H("HarnessC04b", {**b(N=5, K=2, NOPS=3, HREQ=2, LPAT=p), "SEQ.h": q}, sample_every=20) for p in (18, 6, 19, 63) for q in (20, 21)] + [H("HarnessC04b", b(N=17, K=1, NOPS=2, Lmax=4, LRULER=1, CONCRETEKEYS=1), sample_every=10, max_steps=30000000)] +
+                     # all seven operation kinds (incl. clone, go back to the first persisted version, restart with an empty cache) through a cache
+                     [H("HarnessC04a", b(K=4, NOPS=7, CACHE=1), sample_every=200)],
+            "thorough": [H("HarnessC04b", b(N=5, K=1, NOPS=2, HREQ=2), sample_every=500), H("HarnessC04a", b(K=4, NOPS=3), sample_every=200), H("HarnessC04a", b(K=3, NOPS=4)), H("HarnessC04a", b(K=3, NOPS=3, BF=3)), H("HarnessC04a", b(K=5, NOPS=7, CACHE=1), sample_every=5000)],
         },
         "must_reach": ["C04.height-rule", "C04.same-link"],
         "bounds_statement": "histories of <= K operations from the empty tree; final persisted root compared with (a) the height rule and (b) the root of a fresh tree given the same entries in ascending order",
@@ -65,7 +69,7 @@ PROPERTIES = {
     },
     "C05": {
         "runs": {
-            "quick": [H("HarnessC05a", b(K=2, K2=1, FMT=0, CACHE=0)), H("HarnessC05a", b(K=2, K2=1, FMT=1, CACHE=1)), H("HarnessC05a", b(K=2, K2=1, FMT=2, CACHE=0)), H("HarnessC05a", b(K=1, K2=2, FMT=0, CACHE=1)), H("HarnessC05a", b(K=2, K2=2, FMT=0, CACHE=1), sample_every=500),
+            "quick": [H("HarnessC05a", b(K=2, K2=1, FMT=0, CACHE=0)), H("HarnessC05a", b(K=2, K2=1, FMT=1, CACHE=1)), H("HarnessC05a", b(K=2, K2=1, FMT=2, CACHE=0)), H("HarnessC05a", b(K=2, K2=1, FMT=1, CACHE=0)), H("HarnessC05a", b(K=2, K2=1, FMT=2, CACHE=1)), H("HarnessC05a", b(K=1, K2=2, FMT=0, CACHE=1)), H("HarnessC05a", b(K=2, K2=2, FMT=0, CACHE=1), sample_every=500),
                       H("HarnessC05a", b(N0=3, K=0, K2=1, FMT=0, CACHE=0), sample_every=50), H("HarnessC05a", b(N0=3, K=0, K2=1, FMT=0, CACHE=1), sample_every=50)],
             "thorough": [H("HarnessC05a", b(K=3, K2=1, FMT=f, CACHE=c), sample_every=200) for f in (0, 1, 2) for c in (0, 1)],
         },
@@ -76,7 +80,7 @@ PROPERTIES = {
     },
     "C06": {
         "runs": {
-            "quick": [H("HarnessC06a", b(N=2, K=2, MODE=m)) for m in (0, 1, 2, 3, 4, 5, 6)] + [H("HarnessC06a", b(N=3, K=1, MODE=7))] + [H("HarnessC06a", b(N=17, K=1, MODE=1, Lmax=4, LRULER=1, CONCRETEKEYS=1), sample_every=10, max_steps=30000000)],
+            "quick": [H("HarnessC06a", b(N=2, K=2, MODE=m)) for m in (0, 1, 2, 3, 4, 5, 6)] + [H("HarnessC06a", b(N=2, K=2, MODE=m, KEEP=1)) for m in (1, 3)] + [H("HarnessC06a", b(N=3, K=1, MODE=7))] + [H("HarnessC06a", b(N=17, K=1, MODE=1, Lmax=4, LRULER=1, CONCRETEKEYS=1), sample_every=10, max_steps=30000000)],
             "thorough": [H("HarnessC06a", b(N=3, K=2, MODE=m), sample_every=300) for m in (0, 1, 2, 3)] + [H("HarnessC06a", b(N=3, K=3, MODE=m), sample_every=300) for m in (2, 3, 4, 5, 6)] + [H("HarnessC06a", b(N=3, K=2, MODE=7), sample_every=300), H("HarnessC06a", b(N=4, K=1, MODE=7), sample_every=300)] +
                         [H("HarnessC06a", b(N=4, K=1, MODE=m), sample_every=300) for m in (0, 1)],
         },
@@ -86,9 +90,12 @@ PROPERTIES = {
     },
     "C07": {
         "runs": {
-            "quick": [H("HarnessC07a", b(N=3, K=1, MODE=1)), H("HarnessC07a", b(N=3, K=2, MODE=3)), H("HarnessC07a", b(N=3, K=2, MODE=7)), H("HarnessC07a", b(N=4, K=3, MODE=8)), H("HarnessC07a", b(N=3, K=4, MODE=9)),
+            # KEEP=1: the versions are the in-process handles that have just been persisted (root = a name, or nil when emptied by Delete), not re-loaded trees
+            "quick": [H("HarnessC07a", b(N=2, K=2, MODE=m, KEEP=1)) for m in (1, 3)] + [H("HarnessC07a", b(N=3, K=1, MODE=1)), H("HarnessC07a", b(N=3, K=2, MODE=3)), H("HarnessC07a", b(N=3, K=2, MODE=7)), H("HarnessC07a", b(N=4, K=3, MODE=8)), H("HarnessC07a", b(N=3, K=4, MODE=9)),
                       # directed: concrete 33-entry tree of height 5 (ruler layers), one symbolic modification (any key, any layer <= 5)
-                      H("HarnessC07a", b(N=33, K=1, MODE=1, LRULER=1, CONCRETEKEYS=1, Lmax=5), sample_every=20, max_steps=20000000)],
+                      H("HarnessC07a", b(N=33, K=1, MODE=1, LRULER=1, CONCRETEKEYS=1, Lmax=5), sample_every=20, max_steps=20000000)] +
+                     # CACHEMIX: the versions are written through a node cache; one side is opened through it (1: old, 2: new), the other without a cache
+                     [H("HarnessC07a", b(N=33, K=1, MODE=1, LRULER=1, CONCRETEKEYS=1, Lmax=5, CACHEMIX=m), sample_every=20, max_steps=20000000) for m in (1, 2)] + [H("HarnessC07a", b(N=3, K=2, MODE=1, CACHEMIX=m)) for m in (1, 2)],
             "thorough": [H("HarnessC07a", b(N=3, K=2, MODE=1), sample_every=500), H("HarnessC07a", b(N=4, K=1, MODE=1), sample_every=500), H("HarnessC07a", b(N=3, K=3, MODE=3), sample_every=500), H("HarnessC07a", b(N=3, K=3, MODE=7), sample_every=500), H("HarnessC07a", b(N=4, K=2, MODE=7), sample_every=500)],
         },
         "must_reach": ["C07.added-covers-new-only-nodes", "C07.added-within-new", "C07.added-once", "C07.removed-covers-old-only-nodes", "C07.replica-content"],
@@ -97,9 +104,12 @@ PROPERTIES = {
     },
     "C15": {
         "runs": {
-            "quick": [H("HarnessC07a", b(N=3, K=1, MODE=1)), H("HarnessC07a", b(N=3, K=2, MODE=3)), H("HarnessC07a", b(N=3, K=2, MODE=7)), H("HarnessC07a", b(N=4, K=3, MODE=8)), H("HarnessC07a", b(N=3, K=4, MODE=9)),
+            # KEEP=1: the versions are the in-process handles that have just been persisted (root = a name, or nil when emptied by Delete), not re-loaded trees
+            "quick": [H("HarnessC07a", b(N=2, K=2, MODE=m, KEEP=1)) for m in (1, 3)] + [H("HarnessC07a", b(N=3, K=1, MODE=1)), H("HarnessC07a", b(N=3, K=2, MODE=3)), H("HarnessC07a", b(N=3, K=2, MODE=7)), H("HarnessC07a", b(N=4, K=3, MODE=8)), H("HarnessC07a", b(N=3, K=4, MODE=9)),
                       # directed: concrete 33-entry tree of height 5 (ruler layers), one symbolic modification (any key, any layer <= 5)
-                      H("HarnessC07a", b(N=33, K=1, MODE=1, LRULER=1, CONCRETEKEYS=1, Lmax=5), sample_every=20, max_steps=20000000)],
+                      H("HarnessC07a", b(N=33, K=1, MODE=1, LRULER=1, CONCRETEKEYS=1, Lmax=5), sample_every=20, max_steps=20000000)] +
+                     # CACHEMIX: the versions are written through a node cache; one side is opened through it (1: old, 2: new), the other without a cache
+                     [H("HarnessC07a", b(N=33, K=1, MODE=1, LRULER=1, CONCRETEKEYS=1, Lmax=5, CACHEMIX=m), sample_every=20, max_steps=20000000) for m in (1, 2)] + [H("HarnessC07a", b(N=3, K=2, MODE=1, CACHEMIX=m)) for m in (1, 2)],
             "thorough": [H("HarnessC07a", b(N=3, K=2, MODE=1), sample_every=500), H("HarnessC07a", b(N=4, K=1, MODE=1), sample_every=500), H("HarnessC07a", b(N=3, K=3, MODE=3), sample_every=500), H("HarnessC07a", b(N=3, K=3, MODE=7), sample_every=500), H("HarnessC07a", b(N=4, K=2, MODE=7), sample_every=500)],
         },
         "must_reach": ["C15.difflinks-reads", "C15.diffiter-reads", "C15.cursor-reads", "C15.same-version-no-reads"],
@@ -108,10 +118,13 @@ PROPERTIES = {
     },
     "C08": {
         "runs": {
-            "quick": [H("HarnessC08a", b(K=4, CACHE=0), sample_every=200), H("HarnessC08a", b(K=4, CACHE=2), sample_every=200), H("HarnessC08a", b(K=2, CACHE=1), sample_every=200), H("HarnessC08a", b(N0=3, K=0, CACHE=1), sample_every=200)] +
+            "quick": [H("HarnessC08a", b(K=4, CACHE=0), sample_every=200), H("HarnessC08a", b(K=4, CACHE=2), sample_every=200), H("HarnessC08a", b(K=2, CACHE=1), sample_every=200), H("HarnessC08a", b(N0=3, K=0, CACHE=1), sample_every=200),
+                      # no restart: the old version is re-read through the cache that holds the writer's own node objects, after a delete and an
+                      # insert/update by another handle; the base got one insert in the middle (MID), see DESIGN 12.6
+                      H("HarnessC08a", b(N0=4, LPAT=10, MID=1, K=0, CACHE=1, WRITERCACHE=1, DELFIRST=1, CONCRETEKEYS=1), sample_every=200)] +
                      # v1marshaler: equal contents give equal bytes/names whatever route built the nodes (the harness marshaler, like JSON, tells nil slices from empty ones)
-                     [H("HarnessC04b", b(N=5, K=1, NOPS=2, HREQ=2, LPAT=p, FMT=1), sample_every=10) for p in (18, 6, 19, 63)] + [H("HarnessC04a", b(K=4, NOPS=3, FMT=1), sample_every=200)],
-            "thorough": [H("HarnessC08a", b(K=4, CACHE=0), sample_every=200), H("HarnessC08a", b(K=3, CACHE=1))],
+                     [H("HarnessC04b", b(N=5, K=1, NOPS=2, HREQ=2, LPAT=p, FMT=1), sample_every=10) for p in (18, 6, 19, 63)] + [H("HarnessC04a", b(K=4, NOPS=3, FMT=1), sample_every=200)] + [H("HarnessC04b", {**b(N=3, K=k, NOPS=7, CACHE=1), "SEQ.h": q}, sample_every=20) for k, q in ((3, 605), (3, 615), (4, 6015))] + [H("HarnessC04a", b(K=4, NOPS=7, CACHE=1), sample_every=200)],
+            "thorough": [H("HarnessC08a", b(K=4, CACHE=0), sample_every=200), H("HarnessC08a", b(K=3, CACHE=1)), H("HarnessC04a", b(K=5, NOPS=7, CACHE=1), sample_every=5000)],
         },
         "must_reach": ["C08.name-is-hash-of-bytes", "C08.bytes-are-canonical-encoding", "C08.reencode-same-root", "C08.child-names-are-names-of-written-nodes", "C08.root-name-is-name-of-a-written-node", "C08.same-root-name-same-contents", "C08.unmodified-load-persists-under-the-same-name", "C08.equal-contents-equal-root-name"],
         "bounds_statement": "every Store call of every history of <= K operations (incl. persist+reload) and of the final persist",
@@ -124,6 +137,8 @@ PROPERTIES = {
                      # scenario-directed: fixed operation sequences through a shared cache (0 insert, 1 delete, 2 persist+reload), keys/values/layers symbolic
                      [H("HarnessC04a", {**b(K=k, NOPS=3, CACHE=1), "SEQ.h": q}, sample_every=200) for k, q in ((6, 21020), (5, 2102), (7, 201020))] + [H("HarnessC04b", b(N=17, K=1, NOPS=2, Lmax=4, LRULER=1, CONCRETEKEYS=1), sample_every=10, max_steps=30000000)] +
                      # versions persisted after a failed and retried operation (the fault-injecting harness of C12)
+                     # version branching: op 5 = persist and go back to the first persisted version (through the same cache), op 6 = persist and restart with an empty cache
+                     [H("HarnessC04b", {**b(N=3, K=k, NOPS=7, CACHE=1), "SEQ.h": q}, sample_every=20) for k, q in ((3, 605), (3, 615), (4, 6015))] + [H("HarnessC04a", b(K=4, NOPS=7, CACHE=1), sample_every=200)] +
                      [H("HarnessC12a", b(N=3, PRE=0, F=3, OPMASK=3, NOPROBE=1), sample_every=100),
                       # height-3 ruler tree: a delete of the top key merges two levels down, every load position faulted
                       H("HarnessC12a", b(N=7, PRE=0, F=7, OPMASK=3, NOPROBE=1, CONCRETEKEYS=1, LRULER=1), sample_every=50)],
@@ -139,7 +154,8 @@ PROPERTIES = {
             "quick": [H("HarnessC10a", b(N=3, S=2, MODE=m)) for m in (0, 1, 3)] + [H("HarnessC10a", b(N=2, S=3, MODE=m)) for m in (2, 4)] + [H("HarnessC10b", b(N=3, MODE=m)) for m in (0, 1, 2, 3)] +
                      # height-2 shapes with adjacent same-layer keys (nil links inside interior nodes)
                      [H(h, b(N=5, S=3, MODE=m, LPAT=p), sample_every=5) for h in ("HarnessC10a", "HarnessC10b") for m in (0, 1) for p in (66, 58, 147)] + [H("HarnessC10a", b(N=17, S=3, MODE=1, Lmax=4, LRULER=1, CONCRETEKEYS=1), sample_every=20, max_steps=30000000)],
-            "thorough": [H("HarnessC10a", b(N=5, S=3, MODE=m), sample_every=300) for m in (0, 1)] + [H("HarnessC10a", b(N=3, S=5, MODE=0), sample_every=300)] +
+            # (N=5,S=3 is 18225 paths and ran clean once, but takes over an hour of wall time on a loaded machine: not registered)
+            "thorough": [H("HarnessC10a", b(N=5, S=2, MODE=m), sample_every=300) for m in (0, 1)] + [H("HarnessC10a", b(N=4, S=3, MODE=m), sample_every=100) for m in (0, 1)] + [H("HarnessC10a", b(N=3, S=5, MODE=0), sample_every=300)] +
                         [H("HarnessC10a", b(N=3, S=2, MODE=m)) for m in (2, 3, 4)] +
                         [H("HarnessC10b", b(N=5, MODE=m), sample_every=300) for m in (0, 1)] + [H("HarnessC10b", b(N=3, MODE=m)) for m in (2, 3, 4)] +
                         [H("HarnessC10a", b(N=4, S=3, MODE=0, BF=3)), H("HarnessC10b", b(N=4, MODE=1, BF=3))],
@@ -153,7 +169,9 @@ PROPERTIES = {
             "quick": [H("HarnessC12a", b(N=3, PRE=0, F=3)),
                       # directed: concrete height-2 base, one earlier insert on the same handle (dirty in-memory path), then insert/delete under faults
                       H("HarnessC12a", b(N=5, PRE=1, F=4, OPMASK=3, NOPROBE=1, CONCRETEKEYS=1, LRULER=1, **{"SEQ.pre": 0}), sample_every=500),
-                      H("HarnessC12a", b(N=7, PRE=0, F=7, OPMASK=3, NOPROBE=1, CONCRETEKEYS=1, LRULER=1), sample_every=50)],
+                      H("HarnessC12a", b(N=7, PRE=0, F=7, OPMASK=3, NOPROBE=1, CONCRETEKEYS=1, LRULER=1), sample_every=50),
+                      # mixed residency on a height-3 tree: one successful symbolic insert/update after the re-load (its path is in memory, the rest still in the store), then a delete under every load/compare fault position
+                      H("HarnessC12a", b(N=7, PRE=1, F=7, OPMASK=2, NOPROBE=1, CONCRETEKEYS=1, LRULER=1, **{"SEQ.pre": 0}), sample_every=500)],
             "thorough": [H("HarnessC12a", b(N=3, PRE=0, F=5), sample_every=1000), H("HarnessC12a", b(N=2, PRE=1, F=3), sample_every=1000), H("HarnessC12a", b(N=3, PRE=1, F=4), sample_every=3000)],
         },
         "must_reach": ["C12.contents-unchanged", "C12.size-unchanged", "C12.retry-result", "C12.contents-after-retry"],
@@ -172,8 +190,11 @@ PROPERTIES = {
     },
     "C16": {
         "runs": {
-            "quick": [H("HarnessC16a", b(N=5), sample_every=200), H("HarnessC16a", b(N=4, BF=3))] + [H("HarnessC16a", b(N=40, Lmax=5, LRULER=1, CONCRETEKEYS=1), sample_every=20, max_steps=30000000)],
-            "thorough": [H("HarnessC16a", b(N=5), sample_every=200), H("HarnessC16a", b(N=4, BF=3))],
+            "quick": [H("HarnessC16a", b(N=5), sample_every=200), H("HarnessC16a", b(N=4, BF=3))] + [H("HarnessC16a", b(N=40, Lmax=5, LRULER=1, CONCRETEKEYS=1), sample_every=20, max_steps=30000000)] +
+                     # KEEP=1: the operation runs on the in-process handle just persisted (root is a name, nothing in memory: the count includes the top node);
+                     # Lmax=4 gives a top node with two keys, so deleting one of them keeps the height
+                     [H("HarnessC16a", b(N=40, Lmax=lm, LRULER=1, CONCRETEKEYS=1, KEEP=1), sample_every=20, max_steps=30000000) for lm in (4, 5)] + [H("HarnessC16a", b(N=4, KEEP=1), sample_every=100)],
+            "thorough": [H("HarnessC16a", b(N=6), sample_every=2000), H("HarnessC16a", b(N=5, KEEP=1), sample_every=500), H("HarnessC16a", b(N=4, BF=3)), H("HarnessC16a", b(N=70, Lmax=6, LRULER=1, CONCRETEKEYS=1, KEEP=1), sample_every=50, max_steps=60000000)],
         },
         "must_reach": ["C16.get-reads-path", "C16.insert-reads-two-paths", "C16.delete-reads-two-paths", "C16.loadmast-reads-top-only"],
         "bounds_statement": "persisted trees of N ascending entries (all layer assignments, heights 0..2), cache-less; one Get/Insert/Delete with a symbolic key",
@@ -181,17 +202,19 @@ PROPERTIES = {
     },
     "C19": {
         "runs": {
-            "quick": [H("HarnessC19a", b(N=4, L=4), sample_every=100), H("HarnessC19a", b(N=3, L=3, BF=3)), H("HarnessC19a", b(N=4, L=3, FMT=1), sample_every=20), H("HarnessC19a", b(N=4, L=3, FMT=2), sample_every=20)],
-            "thorough": [H("HarnessC19a", b(N=4, L=4), sample_every=300), H("HarnessC19a", b(N=3, L=3, BF=3))],
+            "quick": [H("HarnessC19a", b(N=4, L=4), sample_every=100), H("HarnessC19a", b(N=3, L=3, BF=3)), H("HarnessC19a", b(N=4, L=3, FMT=1), sample_every=20), H("HarnessC19a", b(N=4, L=3, FMT=2), sample_every=20),
+                      # a root without a top node (only the format clause applies); a loader that shares the writer's warm node cache
+                      H("HarnessC19a", b(N=0, L=3)), H("HarnessC19a", b(N=4, L=3, CACHE=1), sample_every=50), H("HarnessC19a", b(N=3, L=3, CACHE=1, FMT=1), sample_every=20)],
+            "thorough": [H("HarnessC19a", b(N=5, L=5), sample_every=3000), H("HarnessC19a", b(N=3, L=3, BF=3)), H("HarnessC19a", b(N=5, L=3, CACHE=1), sample_every=3000), H("HarnessC19a", b(N=5, L=3, FMT=1), sample_every=1000), H("HarnessC19a", b(N=5, L=3, FMT=2), sample_every=1000)],
         },
-        "must_reach": ["C19.rejected.unknown-format", "C19.rejected.layer-below-height", "C19.rejected.top-missing", "C19.rejected.count-mismatch", "C19.rejected.not-ascending", "C19.rejected.not-ascending-under-configured-order", "C19.rejected.tie-under-configured-order", "C19.rejected.undecodable"],
-        "bounds_statement": "correctly persisted tree of N ascending symbolic entries, then one perturbation: unknown NodeFormat; symbolic Height (<=4); missing top node; well-formed top node with one value too many / one link too many / two adjacent keys swapped; loader KeyCompare reversed; top node replaced by an arbitrary undecodable buffer of <= L symbolic bytes each < 10 (single-byte varints)",
+        "must_reach": ["C19.rejected.unknown-format", "C19.rejected.unknown-format-empty-root", "C19.rejected.layer-below-height", "C19.rejected.top-missing", "C19.rejected.count-mismatch", "C19.rejected.not-ascending", "C19.rejected.not-ascending-under-configured-order", "C19.rejected.tie-under-configured-order", "C19.rejected.undecodable"],
+        "bounds_statement": "correctly persisted tree of N ascending symbolic entries, then one perturbation: unknown NodeFormat (also on a root without a top node, and with the loader sharing the writer's warm cache); symbolic Height (<=4); missing top node; well-formed top node with one value too many / one link too many / two adjacent keys swapped; loader KeyCompare reversed; top node replaced by an arbitrary undecodable buffer of <= L symbolic bytes each < 10 (single-byte varints)",
         "outside": ["BranchFactor perturbation (the symbolic key type's layer does not depend on the branch factor; integer layers are covered in C14)", "buffers longer than L or with multi-byte varints"],
         "assumptions": COMMON_ASSUMPTIONS,
     },
     "C14": {
         "runs": {
-            "quick": [H("HarnessC14a", {"NK": n, "Lmax": 2}) for n in (0, 1, 2, 3)] + [H("HarnessC14b", b(N=3))] +
+            "quick": [H("HarnessC14a", {"NK": n, "Lmax": 2}) for n in (0, 1, 2, 3)] + [H("HarnessC14a", {"NK": n, "Lmax": 2, "NILV": 1}) for n in (1, 2, 3)] + [H("HarnessC14b", b(N=3))] +
                      [H("HarnessC14c", {"BF": 2, "VMAX": 0, "SIGNED": 0}), H("HarnessC14c", {"BF": 4, "VMAX": 0, "SIGNED": 0}), H("HarnessC14c", {"BF": 16, "VMAX": 0, "SIGNED": 0}),
                       H("HarnessC14c", {"BF": 16, "VMAX": 0, "SIGNED": 1}),
                       H("HarnessC14c", {"BF": 3, "VMAX": 2187, "SIGNED": 0}), H("HarnessC14c", {"BF": 10, "VMAX": 100000, "SIGNED": 0}), H("HarnessC14c", {"BF": 3, "VMAX": 729, "SIGNED": 1}),
@@ -254,7 +277,9 @@ PROPERTIES = {
                      [H("HarnessC11a", b(N=3, OPS=1, MODE=m, KINDS=15, HREQ=-1), race=True, policy="rr", no_native=True) for m in (0, 2)] +
                      # a base that is not an ascending build: one more symbolic insert anywhere before persisting (MID=1) (splits in the
                      # middle leave nodes with spare array capacity as left siblings), then both goroutines delete
-                     [H("HarnessC11a", b(N=4, OPS=1, MODE=0, KINDS=4, HREQ=1, LPAT=10, MID=1), race=True, policy="rr", no_native=True, sample_every=50)],
+                     [H("HarnessC11a", b(N=4, OPS=1, MODE=0, KINDS=4, HREQ=1, LPAT=10, MID=1), race=True, policy="rr", no_native=True, sample_every=50)] +
+                     # after a "restart": the shared cache fills with nodes decoded from the store (not the writer's objects), in each node format
+                     [H("HarnessC11a", b(N=3, OPS=1, MODE=0, KINDS=15, HREQ=-1, FMT=f, FRESHCACHE=1), race=True, policy="rr", no_native=True, sample_every=200) for f in (0, 1, 2)],
             "thorough": [H("HarnessC11a", b(N=5, OPS=1, MODE=m, KINDS=12, HREQ=1, LPAT=28, MID=1), race=True, policy="rr", no_native=True, sample_every=1000) for m in (0, 1)] + [H("HarnessC11a", b(N=5, OPS=1, MODE=m, KINDS=14, HREQ=2, LPAT=p), race=True, policy=pol, no_native=True, sample_every=1000) for m in (0, 1) for p in (63, 57, 75) for pol in ("rr", "first", "last")] +
                         [H("HarnessC11a", b(N=3, OPS=1, MODE=m, KINDS=15, HREQ=-1), race=True, policy=pol, no_native=True, sample_every=1000) for m in (0, 1, 2) for pol in ("rr", "last")] +
                         [H("HarnessC11a", b(N=2, OPS=2, MODE=0, KINDS=10, HREQ=-1), race=True, policy="rr", no_native=True, sample_every=1000)] +
